@@ -47,7 +47,21 @@ def cases(tier, seed):
                   p_co2=0.6, pre=(0, 0, 7))
         if m == 4:
             kw.update(dry=True)
+        if m == 1:
+            kw.update(dry=(i % 4 == 1))
         sp = gen.config(rng, **kw)
+        if m == 4 and i % 2 == 0:
+            # moist enough for roots to deepen, dry enough below Zmin for pre-irrigation to matter
+            nl = S.n_layers(sp)
+            sp["iwc"] = {"wc_type": "Pct", "method": "Layer", "depth_layer": list(range(1, nl + 1)),
+                         "value": [float(gen.pick(rng, [30, 40, 55]))] * nl}
+            sp["irr"]["kw"]["NetIrrSMT"] = float(gen.pick(rng, [70, 80, 90]))
+        if m == 1:
+            sp["irr"]["kw"]["SMT"] = [float(x) for x in rng.permutation([30, 50, 70, 90])]
+            if i % 4 == 3:
+                nl = S.n_layers(sp)
+                sp["iwc"] = {"wc_type": "Pct", "method": "Layer", "depth_layer": list(range(1, nl + 1)),
+                             "value": [float(gen.pick(rng, [35, 50, 65]))] * nl}
         if sp.get("gw"):
             # a table that is constant in time: with a time-varying table the configured initial
             # content (FC adjusted for the table, saturation below it) legitimately depends on the
